@@ -263,6 +263,20 @@ func readFaults(data []byte, label string) {
 		if fr.Returned > 0 {
 			ctx.NontrivialN(1)
 		}
+		if sig == "" && (k%3 == 0 || len(data) < 120) {
+			// the same fault through the track iterator: its Error() must tell
+			fr2 := &faultio.FailReader{Data: data, At: k}
+			var tr *smf.TracksReader
+			c2 := engine.Catch(func() { tr = smf.ReadTracksFrom(fr2) })
+			ctx.Eval()
+			switch {
+			case c2.Panicked:
+				sig, what = c2.Sig+":read-fault:ReadTracksFrom", "ReadTracksFrom panicked: "+c2.Value
+			case fr2.Returned > 0 && tr != nil && tr.Error() == nil:
+				sig = "read-nil:ReadTracksFrom:fault-in-" + region(data, k)
+				what = fmt.Sprintf("source failed at offset %d of %d (error returned %d times) but TracksReader.Error() is nil", k, len(data), fr2.Returned)
+			}
+		}
 		if sig != "" && ctx.SigCount(sig) < 10 {
 			ctx.Violation(sig, map[string]interface{}{"kind": "read-fault", "file": engine.Hex(data), "fault_at": k, "family": label, "what": what})
 		}
